@@ -99,11 +99,13 @@ pub(crate) fn parse_chunk(data: &[u8]) -> Result<ColorPalette> {
         )));
     }
 
-    let count = last_color_index - first_color_index + 1;
+    // `last - first + 1` overflows u32 for the range 0..=u32::MAX.
+    let count = (last_color_index - first_color_index) as u64 + 1;
     //let mut entries = Vec::with_capacity(count as usize);
     let mut entries = IntMap::default();
 
     for id in 0..count {
+        let id = id as u32;
         let flags = reader.word()?;
         let red = reader.byte()?;
         let green = reader.byte()?;
